@@ -28,21 +28,24 @@ _p("C02", ["filtering", "shexing", "grouping", "plumbing_profiler", "c06_nt", "i
    "_decide_best returns a member of its group. The first O(n^2) grouping loop (_group_constraints_with_same_prop_and_obj) is verified with outer and inner "
    "loop invariants: the visited set is characterised exactly and the result holds exactly one statement per (property, kind) key of the candidates, each a member "
    "of the input. Of the second grouping loop the candidate search, the merge and their composition are verified (exactly the later non-literal candidates of the "
-   "property join the group, the representation invariant is kept, the constraint returned is a member or a new statement); its outer loop and empty-shape "
-   "removal are covered by the " + MON)
+   "property join the group, the representation invariant is kept, the constraint returned is a member or a new statement); its outer loop is covered by the monitor. Empty-shape removal: detection, both filters and the "
+   "terminating removal loop are verified (no shape without statements is left; the strategy dispatch in between is assumed). Composition: " + MON)
 _p("C03", ["shexing", "grouping", "c06_nt", "instances", "profiling"], ["schemas"],
    "Deductive: relaxation rule ('?' iff allow_opt and cardinality 1, else '*'; only below 100 %), exact-cardinality generalisation, '+' always offered and "
    "preferred under keep_less_specific unless useless, with the mode off no cardinality is written. Conformance of every instance (ShEx semantics, "
    "recursive references) is decided by an independent validator on schema-consistent graphs: bounded (schemas.py).")
-_p("C04", ["shexing", "c20_config", "c08_channels"], ["schemas"],
+_p("C04", ["shexing", "c20_config", "c08_channels", "grouping"], ["schemas"],
    "Deductive: exception-freedom (None dereference, missing keys, index range, call shapes, list.remove membership) of the node-kind merge under its "
-   "representation invariant, which the constructor is proved to establish; call shapes of shex_graph / profile_graph. Totality of the composed pipeline on "
+   "representation invariant, which the constructor is proved to establish; call shapes of shex_graph / profile_graph; termination of empty-shape removal (every round removes at least one shape: decreases clause on "
+   "ClassShexer._clean_empty_shapes) and of the N-Triples tokenizer. Totality of the composed pipeline on "
    "adversarial mixes x configurations x formats: bounded (schemas.py).")
-_p("C05", ["c05_tokens", "c18_state", "instances"], ["schemas"],
+_p("C05", ["c05_tokens", "c18_state", "instances", "grouping"], ["schemas"],
    "Deductive: the label built for a class (build_shapes_name_for_class_uri: '<' + shapes namespace + local name + '>', never raises; for slash namespaces the "
    "local name is exactly the last path segment of the class IRI, so labels are injective on distinct local names; the '#' form is left to the monitor), the choice of the shapes prefix (first free default, proved against a user "
    "dictionary that already uses some of them), shape kinds only for nodes of the instance dictionary (reference closure at the source), and the output buffer "
-   "(every line emitted is written exactly once, across the 5000-line flush). Grammar, prefix declarations, unique labels and resolvable references of whole "
+   "(every line emitted is written exactly once, across the 5000-line flush); empty-shape removal: the shapes detected are exactly those without statements, "
+   "exactly the listed shapes are dropped, the statement filter drops exactly the statements that point to a removed shape, and the removal loop ends with no "
+   "empty shape left (the wiring of that filter into the strategy objects and the Shape setters is assumed). Grammar, prefix declarations, unique labels and resolvable references of whole "
    "documents (own ShExC parser / rdflib for SHACL): bounded (schemas.py).")
 _p("C06", ["c06_nt"], ["readers"],
    "Deductive: the token-boundary helpers of the N-Triples tokenizer (end of an IRI token = its '>', end of an unspaced token = next blank or end of line, "
